@@ -6,6 +6,8 @@
 #if defined __has_include && __has_include(<version>)
 #include <version>
 #endif
+#include <exception>
+#include <utility>
 #include <variant>
 #include "bitserializer/serialization_detail/serialization_options.h"
 #include "bitserializer/serialization_detail/errors_handling.h"
@@ -42,8 +44,22 @@ namespace BitSerializer
 			}
 		}
 
+		/// <summary>
+		/// Stores an exception that cannot be thrown at the point of detection (e.g. from a destructor of a scope),
+		/// it will be re-thrown from `OnFinishSerialization()`. Only the first exception is kept.
+		/// </summary>
+		void SetDeferredException(std::exception_ptr exception) noexcept
+		{
+			if (!mDeferredException) {
+				mDeferredException = std::move(exception);
+			}
+		}
+
 		void OnFinishSerialization()
 		{
+			if (mDeferredException) {
+				std::rethrow_exception(std::exchange(mDeferredException, nullptr));
+			}
 			if (!mErrorsMap.empty()) {
 				throw ValidationException(std::move(mErrorsMap));
 			}
@@ -69,6 +85,7 @@ namespace BitSerializer
 
 		StringsVariant mStringValueBuffer;
 		ValidationMap mErrorsMap;
+		std::exception_ptr mDeferredException;
 		const SerializationOptions& mSerializationOptions;
 	};
 }
